@@ -25,6 +25,7 @@
 #define V_MAXSZ ((size_t)1 << 40)   /* object sizes are below this by precondition of the specs */
 #endif
 
+static int __exc;                  /* ghost exception code of the extracted code: 0 = none (DESIGN 3.1) */
 static size_t v_mc_off[2];          /* ghost: tracked offsets inside the next copies */
 static int v_errno;
 
